@@ -3,6 +3,8 @@
 package geom
 
 func init() {
+	vfHarnesses["C03_two_holes"] = vfhC03TwoHoles
+	vfHarnesses["C03_two_holes_both"] = vfhC03TwoHolesBoth
 	vfHarnesses["C03_closed_ring_6"] = vfhC03ClosedRing6
 	vfHarnesses["C03_triangle_hole"] = vfhC03TriangleHole
 	vfHarnesses["C03_nonfinite_point"] = vfhC03NonFinitePoint
@@ -263,6 +265,83 @@ func vfhC03ClosedRing6() {
 		vfReach("simple")
 	} else {
 		vfReach("not-simple")
+	}
+	vfReach("end")
+}
+
+// Polygon.Validate with two holes: shell [0,10]^2, hole A = [2,8]^2, hole B a
+// lattice translate of a small triangle written from any of its three
+// vertices; no edge of B properly crosses an edge of A or of the shell. Valid
+// iff B lies in the closed shell touching it at most once, no vertex of B is
+// strictly inside A (not nested, not overlapping) and A and B touch at most
+// once (a vertex of one on the boundary of the other).
+func vfhC03TwoHoles()     { vfTwoHoles(false) }
+func vfhC03TwoHolesBoth() { vfTwoHoles(true) }
+
+func vfTwoHoles(bothOrders bool) {
+	t := vfPt("t")
+	off := [3]XY{{0, 0}, {2, 1}, {1, 2}}
+	var h [3]XY
+	for i := range h {
+		h[i] = XY{t.X + off[i].X, t.Y + off[i].Y}
+	}
+	sh := []XY{{0, 0}, {10, 0}, {10, 10}, {0, 10}}
+	ha := []XY{{2, 2}, {8, 2}, {8, 8}, {2, 8}}
+	for i := 0; i < 4; i++ {
+		for j := 0; j < 3; j++ {
+			vfAssume(!vfProperCross(sh[i], sh[(i+1)%4], h[j], h[(j+1)%3]))
+			vfAssume(!vfProperCross(ha[i], ha[(i+1)%4], h[j], h[(j+1)%3]))
+		}
+	}
+	s := vfInt("start", 0, 2)
+	shell := vfLineXY(sh[0], sh[1], sh[2], sh[3], sh[0])
+	holeA := vfLineXY(ha[0], ha[1], ha[2], ha[3], ha[0])
+	holeB := vfLineXY(h[s], h[(s+1)%3], h[(s+2)%3], h[s])
+	rings := []LineString{shell, holeA, holeB}
+	if bothOrders && vfBool("b-first") {
+		rings = []LineString{shell, holeB, holeA}
+	}
+	poly := NewPolygon(rings)
+
+	inShell, onShell, inA, contacts := 0, 0, 0, 0
+	for i := range h {
+		if vfAnd(vfAnd(h[i].X >= 0, h[i].X <= 10), vfAnd(h[i].Y >= 0, h[i].Y <= 10)) {
+			inShell++
+			if vfOr(vfOr(h[i].X == 0, h[i].X == 10), vfOr(h[i].Y == 0, h[i].Y == 10)) {
+				onShell++
+			}
+		}
+		if vfAnd(vfAnd(h[i].X > 2, h[i].X < 8), vfAnd(h[i].Y > 2, h[i].Y < 8)) {
+			inA++
+		}
+		for j := 0; j < 4; j++ {
+			if vfOnSeg(h[i], ha[j], ha[(j+1)%4]) {
+				contacts++
+				break
+			}
+		}
+	}
+	for j := 0; j < 4; j++ {
+		for i := 0; i < 3; i++ {
+			a, b := h[i], h[(i+1)%3]
+			if vfAnd(vfOnSeg(ha[j], a, b), vfAnd(!vfEqXY(ha[j], a), !vfEqXY(ha[j], b))) {
+				contacts++
+			}
+		}
+	}
+	want := inShell == 3 && onShell <= 1 && inA == 0 && contacts <= 1
+	got := poly.Validate() == nil
+	vfAssert(got == want, "valid iff hole B is in the shell, outside hole A, and touches each of them at most once")
+	if got {
+		vfReach("valid")
+		if contacts == 1 {
+			vfReach("valid-touching-A")
+		}
+	} else {
+		vfReach("invalid")
+		if inA > 0 && contacts == 1 {
+			vfReach("nested-touching")
+		}
 	}
 	vfReach("end")
 }
